@@ -355,8 +355,8 @@ def main():
     quick = run.quick
     rnd = random.Random(run.seed)
     jobs = []
-    hills = sorted(rnd.sample(range(1000), 40)) if quick else list(range(1000))
-    sheks = sorted(rnd.sample(range(1000), 40)) if quick else list(range(1000))
+    hills = list(range(1000))            # 0.03 s per instance: every member in both tiers
+    sheks = sorted(rnd.sample(range(1000), 120)) if quick else list(range(1000))
     for fn in hills:
         jobs.append((hill_job, (fn,)))
     for fn in sheks:
@@ -380,12 +380,12 @@ def main():
         jobs.append((ground_series_job, ('shekel', list(range(a, a + 250)))))
     jobs.append((ground_series_job, ('shekel4', [1, 2, 3])))
     jobs.append((ground_job, ('stronginC3', 0)))
-    run.bound(instances='Hill %d, Shekel %d (seeded sample in the quick tier, all 1000 + 1000 in the thorough tier), Rastrigin and XSquared N = 1..5, '
+    run.bound(instances='Hill %d (all), Shekel %d (seeded sample in the quick tier, all 1000 in the thorough tier), Rastrigin and XSquared N = 1..5, '
                         'GKLS %d instances (clauses b, c), Grishagin / Shekel4 / StronginC3 clause (a) only' % (len(hills), len(sheks), len(gk)),
               points='every point of the continuous box (solver-decided), except Hill x = 1/2 (evaluated natively)')
     run.not_covered('clauses (b), (c) for Grishagin, Shekel4, StronginC3 (out of reach of the solvers here); Rastrigin / XSquared dimensions above 5; '
                     'GKLS instances outside the sample in clauses (b), (c)')
-    run.parallel(jobs, chunks=2)
+    run.parallel(jobs, chunks=8)
     seen = set()
     for r, c in run.candidates():
         d = c['detail']
